@@ -1,5 +1,3 @@
-//go:build wip_c09
-
 package props
 
 import (
@@ -24,7 +22,7 @@ func c09Store(c *kit.Ctx, a *c09Anchors) {
 // R4
 
 func c09Issuance(c *kit.Ctx, a *c09Anchors) {
-	r4 := c.Rule("R4", "token issued only after a successful credential check, and delivered", 2)
+	r4 := c.Rule("R4", "token issued only after a successful credential check, and delivered", 5)
 	f := a.authHandler
 	c.Analysed(f)
 	info := f.Info()
@@ -137,6 +135,7 @@ func c09Issuance(c *kit.Ctx, a *c09Anchors) {
 	default:
 		o2.OK("%d exit state(s) after issuance, all after a payload reply", good)
 	}
+	c09Login(c, a, r4)
 }
 
 // ---------------------------------------------------------------------------
@@ -176,7 +175,7 @@ func c09AppendTo(info *types.Info, n ast.Node) (types.Object, *ast.CallExpr) {
 }
 
 func c09CredCheck(c *kit.Ctx, a *c09Anchors, m *storeModel) {
-	r5 := c.Rule("R5", "credential check: exact match, existential live-path search", 6)
+	r5 := c.Rule("R5", "credential check: exact match, existential live-path search", 7)
 	f := a.credFn
 	c.Analysed(f)
 	info := f.Info()
@@ -638,8 +637,9 @@ func c09LivePath(c *kit.Ctx, a *c09Anchors, m *storeModel, r5 *kit.Rule, cr *c09
 		return fl.st.ReturnsNil(e.Return, e.State) == "nonnil"
 	}
 	skipBad, truthBad := "", ""
-	var skipExit, truthExit kit.Exit
-	canTrue := false
+	var skipExit, truthExit, negExit kit.Exit
+	canTrue, canStep := false, false // base case (root reached) / inductive step (deeper search answered true)
+	negBad := ""
 	for _, e := range res.Exits {
 		if e.Return == nil || len(e.Return.Results) == 0 {
 			continue
@@ -651,11 +651,19 @@ func c09LivePath(c *kit.Ctx, a *c09Anchors, m *storeModel, r5 *kit.Rule, cr *c09
 			skipBad = fmt.Sprintf("`%s` at %s ends the search while a deleted (tombstone=1) edge is being examined: the remaining edges are never tried", pf.Str(e.Return), pf.At(e.Return))
 			skipExit = e
 		}
-		ts, _ := fl.eval(e.Return.Results[0], e.State)
+		ts, fs := fl.eval(e.Return.Results[0], e.State)
+		if te := e.State.Get("te"); (te == "0" || te == "z") && len(fs) > 0 && negBad == "" {
+			negBad = fmt.Sprintf("`%s` at %s can answer false while the edges are still being examined: one dead-end edge ends the search although another edge may lead to the root", pf.Str(e.Return), pf.At(e.Return))
+			negExit = e
+		}
 		for _, s := range ts {
 			if s.Get("a:root") == "T" || s.Get("a:rec") == "T" {
 				if s.Get("te") != "1" {
-					canTrue = true
+					if s.Get("a:rec") == "T" {
+						canStep = true
+					} else {
+						canTrue = true // true because the parent is the root, not because of a deeper answer
+					}
 				}
 				continue
 			}
@@ -682,12 +690,21 @@ func c09LivePath(c *kit.Ctx, a *c09Anchors, m *storeModel, r5 *kit.Rule, cr *c09
 		oS.OK("every path from the tombstone test's true edge reaches the next iteration")
 	}
 
+	oN := r5.Ob(pf, outer, "existential search", "inside the loop over the parent edges a negative answer is returned only together with an error")
+	if negBad != "" {
+		oN.Violation("%s", negBad).WithPath(res.PathTo(negExit))
+	} else {
+		oN.OK("the only negative answer without error follows the loop")
+	}
+
 	oR := r5.Ob(pf, outer, "true only at root", "answers true only when a live edge's parent is the root sentinel, or a deeper search answered true")
 	switch {
 	case truthBad != "":
 		oR.Violation("%s", truthBad).WithPath(res.PathTo(truthExit))
 	case !canTrue:
-		oR.Violation("%s can never answer true for a live edge: no user can log in", pf.Name)
+		oR.Violation("%s never answers true when a live edge's parent is the root sentinel: no user can log in", pf.Name)
+	case !canStep:
+		oR.Violation("%s never passes on the true answer of the deeper search: only users attached directly below the root can log in", pf.Name)
 	default:
 		oR.OK("true answers carry root == parent or the recursion's answer")
 	}
